@@ -87,10 +87,11 @@ def main():
         chk.inconclusive_because(str(e)); chk.finish()
     root = chk.rundir()
     rng = common.SplitMix64(chk.seed * 32452843 + 10)
-    nstates = 8 if quick else 120
+    nstates = 14 if quick else 200
     steps = 3
     tot = dict(states=0, runs=0, comparisons=0, cells_compared=0, bitwise_pairs=0, dt_mismatch_skipped=0)
     maxratio = 0.
+    later_max = [0.]
     distinct = set()
     for s in range(nstates):
         r = rng.fork("s%d" % s)
@@ -165,6 +166,18 @@ def main():
                     tot["dt_mismatch_skipped"] += 1
                     break
                 d = hydrorun.read_dump(os.path.join(rd, "state_hydro_%06d.bin" % k))
+                if k >= 2:
+                    # the property speaks about ONE step from the SAME state: a later step is judged only if both runs entered it
+                    # with bitwise identical states.  Otherwise the round-off difference of the earlier step is an input
+                    # difference, which the scheme may amplify (observed on the unchanged tree: 1-ulp differences after step 1
+                    # grow to 6e-9 in step 2 next to a 12-orders-of-magnitude density contrast; restarting both step-1 states
+                    # shows that the step-2 result is a deterministic function of the step-1 state, not of the schedule)
+                    dprev = hydrorun.read_dump(os.path.join(rd, "state_hydro_%06d.bin" % (k - 1)))
+                    if dprev[1] != refd[k - 1][1]:
+                        w2, _ = compare(refd[k], d, gamma, vol, meanmass)
+                        tot["later_steps_not_judged_inputs_differ"] = tot.get("later_steps_not_judged_inputs_differ", 0) + 1
+                        later_max[0] = max(later_max[0], w2)
+                        continue
                 worst, desc = compare(refd[k], d, gamma, vol, meanmass)
                 tot["comparisons"] += 1
                 tot["cells_compared"] += refrecs[0]["ncell"]
@@ -227,11 +240,12 @@ def main():
     cov = chk.coverage
     cov["evaluations"] = tot["comparisons"]
     cov["distinct_nontrivial"] = len(distinct)
-    cov["rule"] = ("one evaluation = cell-by-cell comparison of a state dump (initial or after step 1..3) of a (layout, threads, jitter) run with the undivided "
+    cov["rule"] = ("one evaluation = cell-by-cell comparison of a state dump (initial, after step 1, and after steps 2..3 when the preceding states were bitwise equal) of a (layout, threads, jitter) run with the undivided "
                    "one-thread run of the same generated initial state; tolerance 1e-10 x neighbourhood scale (m, m(|v|+a), E+PV); non-trivial = distinct "
                    "(state, layout, threads) runs that were compared")
     cov["monitor_counters"] = tot
     cov["max_difference_over_tolerance"] = maxratio
+    cov["max_difference_over_tolerance_in_later_steps_with_different_inputs_not_judged"] = later_max[0]
     chk.assumptions += ["states after step k are only compared while the step sizes of both runs are bitwise equal (the FIRST step size must be equal: clause layout/first-timestep; "
                         "later ones may legitimately differ when round-off moves the CFL minimum across a power-of-two boundary of the time line: counted, not judged)",
                         "primitive variables are compared only in cells with mass above 1e-6 of the mean"]
